@@ -229,6 +229,7 @@ pub fn worker_main(args: &[String]) -> i32 {
         pin_cpu(cpu);
     }
     let deadline: Option<f64> = get("--max-seconds").and_then(|s| s.parse().ok());
+    let thorough = get("--tier") == Some("thorough");
     let t0 = Instant::now();
     let mut res = WorkerResult::default();
     // resume: a previous incarnation of this worker may have left partial results
@@ -252,7 +253,7 @@ pub fn worker_main(args: &[String]) -> i32 {
         if i % DET_EVERY == 7 && (i % stride != offset) {
             // determinism: every worker process (pinned to a different core) also runs these
             // seeds; the driver compares the event-log hashes across processes
-            let case = gen::generate(&prop, base + i);
+            let case = gen::generate_tier(&prop, base + i, thorough);
             std::fs::write(&marker, format!("{}", i)).ok();
             let hist = run_case(&case);
             if hist.out.hard.is_none() {
@@ -274,7 +275,7 @@ pub fn worker_main(args: &[String]) -> i32 {
         }
         let seed = base + i;
         std::fs::write(&marker, format!("{}", i)).ok();
-        let case = gen::generate(&prop, seed);
+        let case = gen::generate_tier(&prop, seed, thorough);
         let (hist, v) = eval_case(&case);
         res.evaluated += 1;
         res.last_seed = i;
@@ -416,6 +417,7 @@ pub fn drive_main(args: &[String]) -> i32 {
         let mut c = Command::new(&exe);
         c.arg("worker")
             .arg("--prop").arg(&prop)
+            .arg("--tier").arg(&tier)
             .arg("--base").arg(base.to_string())
             .arg("--from").arg(from.to_string())
             .arg("--count").arg(count.to_string())
@@ -536,7 +538,7 @@ pub fn drive_main(args: &[String]) -> i32 {
     }
     // process aborts are C07 violations attributed to the seed in the marker file
     for (k, cur, st) in aborted.iter().take(1) {
-        let case = gen::generate(&prop, base + cur);
+        let case = gen::generate_tier(&prop, base + cur, tier == "thorough");
         let viol = Violation {
             prop: "C07".into(),
             clause: "C07.abort".into(),
